@@ -48,6 +48,28 @@ def Err.message : Err → String
   | .streamError => "Stream Error" | .protocolError => "Protocol Error" | .ioError => "IO Error"
   | .systemError => "System Error" | .debugError => "Debug Error"
 
+def Err.code (e : Err) : Nat := (Err.all.idxOf e)
+
+/-- `enum class EncodingByte` (include/nop/base/encoding_byte.h), names and values in order. -/
+def prefixTable : List (String × Nat) :=
+  [("PositiveFixInt", 0x00), ("PositiveFixIntMin", 0x00), ("PositiveFixIntMax", 0x7f), ("PositiveFixIntMask", 0x7f),
+   ("False", 0x00), ("True", 0x01), ("U8", 0x80), ("U16", 0x81), ("U32", 0x82), ("U64", 0x83), ("I8", 0x84),
+   ("I16", 0x85), ("I32", 0x86), ("I64", 0x87), ("F32", 0x88), ("F64", 0x89), ("ReservedMin", 0x8a),
+   ("ReservedMax", 0xb4), ("Table", 0xb5), ("Error", 0xb6), ("Handle", 0xb7), ("Variant", 0xb8), ("Structure", 0xb9),
+   ("Array", 0xba), ("Map", 0xbb), ("Binary", 0xbc), ("String", 0xbd), ("Nil", 0xbe), ("Extension", 0xbf),
+   ("NegativeFixInt", 0xc0), ("NegativeFixIntMin", 0xc0), ("NegativeFixIntMax", 0xff)]
+
+/-- The prefix table of docs/format.md: (label, first byte, last byte, enumerator for the first byte). -/
+def docTable : List (String × Nat × Nat × String) :=
+  [("POS", 0x00, 0x7f, "PositiveFixIntMin"), ("F", 0x00, 0x00, "False"), ("T", 0x01, 0x01, "True"),
+   ("U8", 0x80, 0x80, "U8"), ("U16", 0x81, 0x81, "U16"), ("U32", 0x82, 0x82, "U32"), ("U64", 0x83, 0x83, "U64"),
+   ("I8", 0x84, 0x84, "I8"), ("I16", 0x85, 0x85, "I16"), ("I32", 0x86, 0x86, "I32"), ("I64", 0x87, 0x87, "I64"),
+   ("F32", 0x88, 0x88, "F32"), ("F64", 0x89, 0x89, "F64"), ("", 0x8a, 0xb4, "ReservedMin"),
+   ("TAB", 0xb5, 0xb5, "Table"), ("ERR", 0xb6, 0xb6, "Error"), ("HND", 0xb7, 0xb7, "Handle"), ("VAR", 0xb8, 0xb8, "Variant"),
+   ("STU", 0xb9, 0xb9, "Structure"), ("ARY", 0xba, 0xba, "Array"), ("MAP", 0xbb, 0xbb, "Map"), ("BIN", 0xbc, 0xbc, "Binary"),
+   ("STR", 0xbd, 0xbd, "String"), ("NIL", 0xbe, 0xbe, "Nil"), ("EXT", 0xbf, 0xbf, "Extension"),
+   ("NEG", 0xc0, 0xff, "NegativeFixIntMin")]
+
 /-- Fixed-width integer kinds. -/
 inductive IntKind | u8 | u16 | u32 | u64 | i8 | i16 | i32 | i64
   deriving DecidableEq, Repr, Inhabited
